@@ -142,8 +142,14 @@ func unpackPPTPayload(details wamp.Dict, args wamp.List) (wamp.List, wamp.Dict, 
 	pptSerializerStr, ok := details[wamp.OptPPTSerializer]
 	if ok && pptSerializerStr != "native" {
 
+		// The details and arguments come from another peer, so check types
+		// and lengths instead of asserting them.
 		var serializer serialize.Serializer
-		pptSerializer, ok := PPTSerializers[pptSerializerStr.(string)]
+		pptSerializerName, ok := pptSerializerStr.(string)
+		if !ok {
+			return nil, nil, ErrPPTSerializerInvalid
+		}
+		pptSerializer, ok := PPTSerializers[pptSerializerName]
 		if !ok {
 			return nil, nil, ErrPPTSerializerInvalid
 		}
@@ -159,12 +165,28 @@ func unpackPPTPayload(details wamp.Dict, args wamp.List) (wamp.List, wamp.Dict, 
 			// In future should be extended with FlatBuffers
 		}
 
-		if err := serializer.DeserializeDataItem(args[0].([]byte), &payloadTyped); err != nil {
+		if len(args) == 0 {
+			return nil, nil, ErrSerialization
+		}
+		bin, ok := args[0].([]byte)
+		if !ok {
+			return nil, nil, ErrSerialization
+		}
+		if err := serializer.DeserializeDataItem(bin, &payloadTyped); err != nil {
 			return nil, nil, ErrSerialization
 		}
 
 	} else {
-		payloadTyped = args[0].(*wamp.PassthruPayload)
+		if len(args) == 0 {
+			return nil, nil, ErrSerialization
+		}
+		if payloadTyped, ok = args[0].(*wamp.PassthruPayload); !ok {
+			return nil, nil, ErrSerialization
+		}
+	}
+
+	if payloadTyped == nil {
+		return nil, nil, ErrSerialization
 	}
 
 	return payloadTyped.Arguments, payloadTyped.ArgumentsKw, nil
@@ -199,8 +221,14 @@ func packE2EEPayload(options wamp.Dict, args wamp.List, kwargs wamp.Dict) (wamp.
 }
 
 func unpackE2EEPayload(details wamp.Dict, args wamp.List) (wamp.List, wamp.Dict, error) {
+	// The details and arguments come from another peer, so check types and
+	// lengths instead of asserting them.
 	var serializer serialize.Serializer
-	pptSerializer, ok := E2eeSerializers[details[wamp.OptPPTSerializer].(string)]
+	pptSerializerName, ok := details[wamp.OptPPTSerializer].(string)
+	if !ok {
+		return nil, nil, ErrPPTSerializerInvalid
+	}
+	pptSerializer, ok := E2eeSerializers[pptSerializerName]
 	if !ok {
 		return nil, nil, ErrPPTSerializerInvalid
 	}
@@ -212,8 +240,15 @@ func unpackE2EEPayload(details wamp.Dict, args wamp.List) (wamp.List, wamp.Dict,
 		// In future should be extended with FlatBuffers
 	}
 
+	if len(args) == 0 {
+		return nil, nil, ErrSerialization
+	}
+	bin, ok := args[0].([]byte)
+	if !ok {
+		return nil, nil, ErrSerialization
+	}
 	var payloadTyped wamp.PassthruPayload
-	if err := serializer.DeserializeDataItem(args[0].([]byte), &payloadTyped); err != nil {
+	if err := serializer.DeserializeDataItem(bin, &payloadTyped); err != nil {
 		return nil, nil, ErrSerialization
 	}
 
